@@ -89,6 +89,7 @@ func (w *World) verifyFunc(fn *ssa.Function, ct *Contract, mode execMode) *FuncR
 			}
 		}
 		ex.entryHeap = st.snapshotHeap()
+		ex.atomicInit(st)
 		if ct != nil {
 			// ghost code at entry (after the pre-state snapshot, so old() sees the values before)
 			e := &env{vars: map[string]Val{}}
